@@ -39,6 +39,9 @@ type DriverRun struct {
 // so that the counterexample itself is replayed on the real code.
 var driverModelValues []string
 
+// driverReason: quick | fallback | thorough (exported to the drivers as VERIF_DRIVER_REASON)
+var driverReason = "quick"
+
 var bvModelRe = regexp.MustCompile(`define-fun arg_\w+ \(\) \(_ BitVec (\d+)\)\s+(#x[0-9a-fA-F]+|#b[01]+)`)
 
 func modelIntArgs(model string) []string {
@@ -85,7 +88,7 @@ func runDrivers(o checkOpts) []DriverRun {
 		ctx, cancel := context.WithTimeout(context.Background(), 240*time.Second)
 		cmd := exec.CommandContext(ctx, "go", args...)
 		cmd.Dir = abs
-		cmd.Env = append(os.Environ(), "GOFLAGS=-mod=mod", "GOPROXY=off", "GOSUMDB=off", "GOTOOLCHAIN=local", fmt.Sprintf("VERIF_SEED=%d", o.seed))
+		cmd.Env = append(os.Environ(), "GOFLAGS=-mod=mod", "GOPROXY=off", "GOSUMDB=off", "GOTOOLCHAIN=local", fmt.Sprintf("VERIF_SEED=%d", o.seed), "VERIF_DRIVER_REASON="+driverReason)
 		if len(driverModelValues) > 0 {
 			cmd.Env = append(cmd.Env, "VERIF_MODEL_VALUES="+strings.Join(driverModelValues, ","))
 		}
